@@ -22,13 +22,17 @@ type Case struct {
 }
 
 // runOps applies ops to a fresh real vote set, judging every step exactly like the search does.
-// It returns the index of the first step at which an oracle fires (-1: none) and what fired.
+// It returns the index of the first step at which an oracle fires and what fired; (-1, nil) if
+// nothing fires, (-1, non-empty) if the empty vote set itself violates an oracle.
 func (j *job) runOps(ops []*token, trace func(string)) (int, []fired) {
 	vs := j.newVoteSet()
 	or := newOracle()
 	ob, p := observe(vs)
 	if p != "" {
-		return 0, []fired{{"panic", firstLine(p)}}
+		return -1, []fired{{"panic", firstLine(p)}}
+	}
+	if fs := j.judge(ob, nil, false, nil, false, ob, or); len(fs) > 0 {
+		return -1, fs
 	}
 	key := j.keyOf(vs)
 	for i, t := range ops {
@@ -83,9 +87,6 @@ func firesOracle(fs []fired, oracle string) (bool, string) {
 func (j *job) minimise(ops []*token, oracle string) ([]*token, string, bool) {
 	try := func(c []*token) ([]*token, string, bool) {
 		step, fs := j.runOps(c, nil)
-		if step < 0 {
-			return nil, "", false
-		}
 		ok, d := firesOracle(fs, oracle)
 		if !ok {
 			return nil, "", false
@@ -119,35 +120,53 @@ func opNames(ops []*token) []string {
 	return s
 }
 
-// kindSet is the violation class: the set of token kinds of a minimised history (a re-signed A
-// counts as A).
+// kindSet is the violation class: the set of token kinds of a minimised history with block ids
+// named canonically (the family {A, A'} shares a hash: one member alone is "X", both are "X,X'";
+// B is "Y", or "X" when no member of the A family occurs; a re-signed A counts as A).
 func kindSet(ops []*token) string {
-	m := map[string]bool{}
+	famA, a, ap, famB := false, false, false, false
 	for _, t := range ops {
 		k := t.kind
 		if t.vote == nil {
-			k = "claim:" + blkName[t.claim]
+			k = blkName[t.claim]
 		}
-		if k == "A~" {
-			k = "A"
+		switch k {
+		case "A", "A~":
+			famA, a = true, true
+		case "A'":
+			famA, ap = true, true
+		case "B":
+			famB = true
 		}
-		m[k] = true
+	}
+	_ = famB
+	name := func(k string) string {
+		switch k {
+		case "A", "A~":
+			return "X"
+		case "A'":
+			if a && ap {
+				return "X'"
+			}
+			return "X"
+		case "B":
+			if famA {
+				return "Y"
+			}
+			return "X"
+		}
+		return k
+	}
+	m := map[string]bool{}
+	for _, t := range ops {
+		if t.vote == nil {
+			m["claim:"+name(blkName[t.claim])] = true
+		} else {
+			m[name(t.kind)] = true
+		}
 	}
 	var ks []string
 	for k := range m {
-		ks = append(ks, k)
-	}
-	sort.Strings(ks)
-	return strings.Join(ks, ",")
-}
-
-func kindMultiset(ops []*token) string {
-	var ks []string
-	for _, t := range ops {
-		k := t.kind
-		if t.vote == nil {
-			k = "claim:" + blkName[t.claim]
-		}
 		ks = append(ks, k)
 	}
 	sort.Strings(ks)
@@ -188,47 +207,56 @@ func (c *candidate) signature() string {
 
 var best = map[string]*candidate{} // oracle|kind set -> first candidate
 
-const maxGroupsPerJob = 96
-
-// digest turns the raw violations of a finished search into candidates.
-func (s *search) digest() {
-	type group struct {
-		oracle string
-		ops    []*token
-		count  int64
+// isSubsequence reports whether the operations of m occur in ops in the same order.
+func isSubsequence(m, ops []*token) bool {
+	i := 0
+	for _, t := range ops {
+		if i < len(m) && m[i] == t {
+			i++
+		}
 	}
-	groups := map[string]*group{}
-	var order []string
+	return i == len(m)
+}
+
+const maxMinimisationsPerJob = 400
+
+// digest turns the raw violations of a finished search (BFS order: shortest histories first) into
+// candidates: a violating history that contains, as a subsequence, an already minimised violating
+// history of the same oracle is attributed to it; any other is minimised by replay.
+func (s *search) digest() {
+	var mins []*candidate
+	r.Add("violating_transitions", int64(len(s.viols)))
+	minimised := 0
+next:
 	for _, v := range s.viols {
 		ops := s.path(v.parent)
 		if v.tok >= 0 {
 			ops = append(ops, s.j.toks[v.tok])
 		}
-		g := v.f.oracle + "|" + kindMultiset(ops)
-		if groups[g] == nil {
-			groups[g] = &group{oracle: v.f.oracle, ops: ops}
-			order = append(order, g)
+		for _, m := range mins {
+			if m.oracle == v.f.oracle && isSubsequence(m.ops, ops) {
+				m.count++
+				continue next
+			}
 		}
-		groups[g].count++
-	}
-	r.Add("violating_transitions", int64(len(s.viols)))
-	for gi, g := range order {
-		gr := groups[g]
-		ops, detail := gr.ops, ""
-		if gi < maxGroupsPerJob {
-			m, d, ok := s.j.minimise(gr.ops, gr.oracle)
+		detail := v.f.detail
+		if minimised < maxMinimisationsPerJob {
+			minimised++
+			m, d, ok := s.j.minimise(ops, v.f.oracle)
 			if !ok {
 				// the search saw it, a fresh replay does not: the harness is not deterministic
-				fmt.Printf("MACHINERY-ERROR property=C02 violation %s of %s not reproduced by replay of %v\n", gr.oracle, s.j.label(), opNames(gr.ops))
+				fmt.Printf("MACHINERY-ERROR property=C02 violation %s of %s not reproduced by replay of %v\n", v.f.oracle, s.j.label(), opNames(ops))
 				r.Vacuous("a violation seen by the search was not reproduced by a fresh replay")
 				continue
 			}
 			ops, detail = m, d
 		} else {
-			r.Add("violation_groups_not_minimised", 1)
+			r.Add("violations_not_minimised", 1)
 		}
-		c := &candidate{vecIdx: s.j.vecIdx, typIdx: s.j.typIdx, j: s.j, ops: ops, oracle: gr.oracle, detail: detail, count: gr.count}
-		k := gr.oracle + "|" + kindSet(ops)
+		mins = append(mins, &candidate{vecIdx: s.j.vecIdx, typIdx: s.j.typIdx, j: s.j, ops: ops, oracle: v.f.oracle, detail: detail, count: 1})
+	}
+	for _, c := range mins {
+		k := c.oracle + "|" + kindSet(c.ops)
 		if b := best[k]; b == nil || c.less(b) {
 			if b != nil {
 				c.count += b.count
